@@ -362,6 +362,59 @@ def rule_decoder_state(ck, R, rule='C06.f'):
                    'initialises the instance\'s SLIP decoder context' if ok else 'leaves the instance\'s SLIP decoder context as it was (uninitialised, or in the state of the previous channel)')
 
 
+def rule_tcp_desync(ck, R, rule='C06.f'):
+    """The length-prefixed (TCP) twin of decoder-resync.  When reception fails after part of a frame was taken from the
+    channel, what the channel delivers next is the REST of that frame.  A SLIP decoder can skip to the next delimiter; a
+    length-prefixed stream has no delimiter, it is out of step for good.  So: (1) a path of regp_recv that returns a
+    channel error on the TCP branch with part of a frame received (a block was obtained) records that in the instance -
+    it stores a non-zero constant into a field of the endpoint; (2) every path that decodes from a TCP channel has tested
+    that field to be clear; (3) binding a channel (regp_init / regp_use_channel) clears it.  Otherwise the next call takes
+    payload octets of the dropped frame for a length prefix and a frame - an embedded frame image is executed and
+    acknowledged: a frame that failed reception causes a memory access."""
+    eng = R.engine({'early_ebusy', 'early_erxoverflow'})
+    ps = R.paths('regp_recv', rule, eng)
+    if ps is None:
+        return
+    bad = None
+    marks = set()
+    nfail = ndec = 0
+    for p in ps:
+        d = p.calls('lenp_decode_source_to_sink')
+        if not d:
+            continue
+        ndec += 1
+        r = d[0].result
+        failed = any(c[0] == 'cmp' and c[1] == '<' and strip_cast(c[2]) == r and c[3] == C(0) for c in p.cond_terms())
+        block = any(c[0] == 'cmp' and c[1] == '!=' and c[3] == C(0) and fmt(c[2]).endswith('buffer.data') for c in p.cond_terms())
+        if failed and block and p.end == 'return':
+            nfail += 1
+            st = [e for e in p.stores() if sym.rooted_at(e.name, P) and sym.is_c(strip_cast(e.args[0])) and strip_cast(e.args[0])[1] != 0]
+            if not st:
+                bad = bad or ('a channel error ends the call on the length-prefixed branch after part of a frame was received (the block is freed), and nothing in the instance '
+                              'remembers it: the next call reads the rest of that frame as a length prefix and a frame - a payload containing a frame image is executed and '
+                              'acknowledged (a length-prefixed stream cannot resynchronise; the instance has to refuse further reception until a channel is bound again)')
+            marks |= {e.name for e in st}
+    if ndec == 0:
+        return ck.broken(rule, 'regp_recv:tcp-desync', R.where('regp_recv'), 'no length-prefix decode call found')
+    if nfail == 0 and bad is None:
+        return ck.broken(rule, 'regp_recv:tcp-desync', R.where('regp_recv'), 'no path returns a channel error after receiving part of a length-prefixed frame')
+    if bad is None:
+        for p in ps:
+            for d in p.calls('lenp_decode_source_to_sink'):
+                ok = any(c[0] == 'cmp' and c[1] == '==' and strip_cast(c[2]) in marks and c[3] == C(0) for c in p.cond_terms())
+                if not ok:
+                    bad = bad or ('the mark %s set after a mid-frame channel error is not tested before the next decode from the length-prefixed channel' % ', '.join(sorted(fmt(m) for m in marks)))
+        for fn in ('regp_init', 'regp_use_channel'):
+            psi = R.paths(fn, rule, R.engine(set()))
+            for p in psi or []:
+                for m in marks:
+                    if strip_cast(sym.mem_read(p.mem, m)) != C(0):
+                        bad = bad or '%s does not clear %s: an instance bound to a fresh channel keeps refusing' % (fn, fmt(m))
+    ck.verdict(bad is None, rule, 'regp_recv:tcp-desync', R.where('regp_recv'),
+               'after a channel error inside a length-prefixed frame the instance refuses to decode from that channel until a channel is bound again (%d paths)' % nfail
+               if bad is None else bad)
+
+
 def rule_decoder_owners(ck, R, rule='C06.f'):
     """Who else touches the instance's decoder context.  Its state is knowledge about the CHANNEL (is the stream inside a
     damaged frame that still has to be skipped?), so it may be reset only together with the channel: a function that
@@ -423,6 +476,7 @@ def run(ck):
     rule_c(ck, R)
     rule_decoder_state(ck, R)
     rule_decoder_owners(ck, R)
+    rule_tcp_desync(ck, R)
     ck.rule('C06.j', 'marks an operation sets in the instance while it works (busy / in-progress flags) are taken back on every way out of it: a request that follows a failed send or receive is served like any other')
     from .common import bracket_rule
     bracket_rule(ck, 'C06.j', R.u, lambda: R.engine(set()), ('register-protocol.c', 'register-protocol.h'))
